@@ -65,7 +65,12 @@ pub fn run(args: &[String]) {
                 (from..from + count)
                     .into_par_iter()
                     .filter_map(|k| {
+                        let _ = fh::take_loop_counters();
                         let sig = crate::util::with_stream(1_000_000 + k, || V::sign(b"exact fit", &sk));
+                        let (_, ctests) = fh::take_loop_counters();
+                        if ctests > 1 {
+                            return Some((k, -(ctests as i64)));
+                        }
                         let sb = V::sig_to_bytes(&sig);
                         let s2 = crate::refmodel::codec::decompress(&sb[41..], V::N)?;
                         let slack = 8 * l as i64 - crate::refmodel::codec::bits_of(&s2) as i64;
